@@ -50,6 +50,7 @@ type jsonBlob struct {
 	raw     []byte // concrete bytes (golden files, harness-written files)
 	node    *jnode // model tree
 	garbage bool   // not JSON at all (e.g. gzip bytes read raw)
+	trail   bool   // a complete value followed by the tail of an older, longer content (in-place overwrite without truncation)
 }
 
 func (*jsonBlob) isModel() {}
@@ -529,6 +530,9 @@ func (i *interpreter) callMarshaler(fr *frame, m *ssa.Function, recv value) *jno
 }
 
 func (i *interpreter) blobTree(b *jsonBlob) (*jnode, error) {
+	if b.trail {
+		return nil, fmt.Errorf("invalid character '}' after top-level value")
+	}
 	if b.garbage {
 		return nil, fmt.Errorf("invalid character '\\x1f' looking for beginning of value")
 	}
@@ -1032,7 +1036,7 @@ func (i *interpreter) jsonUnmarshal(fr *frame, data value, target value) (res va
 	n, err := i.blobTree(blob)
 	if err != nil {
 		msg := err.Error()
-		if len(blob.raw) == 0 && !blob.garbage {
+		if len(blob.raw) == 0 && !blob.garbage && !blob.trail {
 			msg = "unexpected end of JSON input"
 		}
 		return i.jsonErr("SyntaxError", msg)
